@@ -3,7 +3,9 @@
    Go                                   here
    -----------------------------------  ------------------------------------------
    a < b   on strings (bytewise)        str_ltb  (= String.ltb, lexicographic on bytes)
-   strings.ToLower (ASCII input)        to_lower
+   strings.ToLower                      to_lower  (on UTF-8 over the alphabet ASCII + Latin-1 Supplement +
+                                                  U+0130, U+0178, U+1E9E, U+212A KELVIN SIGN, U+212B ANGSTROM SIGN;
+                                                  other code points are left unchanged)
    strings.TrimPrefix(s, "_")           trim_underscore
    fmt.Sprintf("%d", n)                 dec
    "\"" + s + "\""  (quoting of a plain identifier / simple literal)   quote           *)
@@ -18,10 +20,36 @@ Definition lower_ascii (c : ascii) : ascii :=
   let n := N_of_ascii c in
   if (N.leb 65 n && N.leb n 90)%bool then ascii_of_N (n + 32) else c.
 
+(* strings.ToLower maps code points, not bytes: U+212A KELVIN SIGN (E2 84 AA) lower-cases to "k", U+0130
+   (C4 B0) to "i" — so "K" is a case variant of the name "K" — U+212B (E2 84 AB) to U+00E5, U+1E9E (E1 BA 9E) to
+   U+00DF, U+0178 (C5 B8) to U+00FF, and the Latin-1 capitals U+00C0..U+00DE except U+00D7 (C3 80 .. C3 9E) to
+   U+00E0..U+00FE (second byte + 32) *)
+Definition byte (n : N) : ascii := ascii_of_N n.
 Fixpoint to_lower (s : string) : string :=
   match s with
   | EmptyString => EmptyString
-  | String c r => String (lower_ascii c) (to_lower r)
+  | String c1 r1 =>
+      let n1 := N_of_ascii c1 in
+      match r1 with
+      | EmptyString => String (lower_ascii c1) EmptyString
+      | String c2 r2 =>
+          let n2 := N_of_ascii c2 in
+          if (N.eqb n1 195 && N.leb 128 n2 && N.leb n2 158 && negb (N.eqb n2 151))%bool
+          then String c1 (String (byte (n2 + 32)) (to_lower r2))
+          else if (N.eqb n1 196 && N.eqb n2 176)%bool then String (byte 105) (to_lower r2)
+          else if (N.eqb n1 197 && N.eqb n2 184)%bool then String (byte 195) (String (byte 191) (to_lower r2))
+          else match r2 with
+               | EmptyString => String (lower_ascii c1) (String (lower_ascii c2) EmptyString)
+               | String c3 r3 =>
+                   let n3 := N_of_ascii c3 in
+                   if (N.eqb n1 226 && N.eqb n2 132 && N.eqb n3 170)%bool then String (byte 107) (to_lower r3)
+                   else if (N.eqb n1 226 && N.eqb n2 132 && N.eqb n3 171)%bool
+                        then String (byte 195) (String (byte 165) (to_lower r3))
+                   else if (N.eqb n1 225 && N.eqb n2 186 && N.eqb n3 158)%bool
+                        then String (byte 195) (String (byte 159) (to_lower r3))
+                   else String (lower_ascii c1) (to_lower r1)
+               end
+      end
   end.
 
 Definition trim_underscore (s : string) : string :=
